@@ -206,14 +206,14 @@ def fam_timeout(seed, i):
     sc = base("timeout", seed, i, rng, horizon=60)
     sc["idle_only"] = rng.random() < 0.7
     t = rng.choice([-1, 2, 3, 3, 4, 0])       # -1: none; 0: a configured timeout of zero
-    cfg = {"cap": rng.choice([-1, -1, 1, 2]), "tmo": t, "failto": t >= 0 and rng.random() < 0.3, "pscr": [Y] * rng.choice([0, 1]), "owning": rng.random() < 0.3}
+    cfg = {"cap": rng.choice([-1, -1, 1, 2]), "tmo": t, "failto": t >= 0 and rng.random() < 0.3, "pscr": [Y] * rng.choice([0, 1]), "owning": rng.random() < 0.4}
     # callbacks are not handlers: however long started / stopped take, the handler timeout does not apply to them
     r = rng.random()
     if r < 0.25:
         cfg["sscr"] = [[eff("sleep", rng.randint(1, 6))] + [Y] * rng.choice([0, 1])]
     elif r < 0.35:
         cfg["sscr"] = [[Y, eff("sleep", rng.randint(3, 6))]]
-    if rng.random() < 0.25:
+    if rng.random() < 0.35:
         cfg["pscr"] = [eff("sleep", rng.randint(1, 6))]
     ncl = rng.randint(1, 3)
     names = [f"c{k+1}" for k in range(ncl)]
@@ -230,6 +230,12 @@ def fam_timeout(seed, i):
     cnt = [0]
     for c in names:
         sc["clients"][c] = Prog(rng, c, handles.get(c, {}), w, scripts, cnt).run(rng.randint(2, 7))
+    # half of the runs end with an explicit wind-down, so that stopped() (however long it takes) and what waits for it is seen
+    enders = [c for c in names if kinds[c] in ("addr", "owning") and not any(o["op"] in ("stop", "join", "consume", "halt", "await") for o in sc["clients"][c])]
+    if enders and rng.random() < 0.5:
+        c = rng.choice(enders)
+        h = "h0" if kinds[c] == "owning" else f"h_{c}"
+        sc["clients"][c] += [{"op": "consume", "h": h}] if kinds[c] == "owning" else [{"op": "stop", "h": h}, {"op": "await", "h": h}]
     return sc
 
 
@@ -366,11 +372,19 @@ def fam_tree(seed, i):
             c = rng.choice(cl)
             main.append({"op": "clone", "h": f"r_{x}", "nh": f"e_{x}", "to": c})
             handles[c][f"e_{x}"] = "addr"
+        second = rng.random() < 0.25
+        if second:
+            # the same child registered a second time, under another message type (or twice as a plain child: two copies)
+            main.append({"op": "clone", "h": f"r_{x}", "nh": f"q_{x}", "to": "main"})
         main.append({"op": "give", "h": f"r_{x}", "to": p})
         if rng.random() < 0.75:
             reg_eff[p].append(eff(b, 0, f"r_{x}"))
         else:
             late.setdefault(p, []).append(eff(b, 0, f"r_{x}"))
+        if second:
+            main.append({"op": "give", "h": f"q_{x}", "to": p})
+            # (two copies of one typed broadcast carry the same message id and could not be told apart in the trace)
+            reg_eff[p].append(eff(rng.choice([k for k in ("add_child", "register_bc", "register_bc2") if k != b or k == "add_child"]), 0, f"q_{x}"))
     # callback scripts are part of the spawn cfg: patch them in
     for o in main:
         if o["op"] == "spawn":
